@@ -40,12 +40,17 @@ theorem output_eq_failed {c : Cfg} {s : State} (h : Reach c s) (hf : s.failed = 
     for every `n ≥ 0`, granularity, slot count, candidate set and schedule.
 
     MISSING for the full statement: the hypothesis `s.orderQ = []` should follow
-    from `terminated` (every entry of `order_q` is owned by a job, an emit job or
-    a buffer that holds a work unit or an output slot, and at termination all
-    units and slots are back).  That ownership invariant is not proved yet; the
-    BFS driver checks it (`badout` counts terminated states with a non-empty
-    `order_q`; 0 on every explored shape) and `uninit()`'s VERIF_ASSERT checks
-    it in the real program. -/
+    from `terminated`.  What IS proved: at termination `retr_q`, `emit_q`,
+    `reord_q`, `output_q`, the busy workers and the live unord_blks are all gone
+    (`Props.C11.Expand.quiescent_at_termination`).  What is missing is the
+    ownership invariant "every entry (b,i) of `order_q` still has a producer — a
+    master-capable job, an emit job or a buffer of block b with index ≥ i"; its
+    inductive form needs either uniqueness of the producer per base (scan
+    discipline: every candidate is reported once) or a successor-chain
+    invariant on `reord_q`, neither done.  The BFS driver checks it (`badout`
+    counts terminated states with a non-empty `order_q`; 0 on every explored
+    shape) and `uninit()`'s VERIF_ASSERT(empty(order_q)) checks it in the real
+    program on every traced run. -/
 theorem output_eq_partial {c : Cfg} {s : State} (h : Reach c s) (ht : terminated c s = true)
     (ho : s.orderQ = []) : seqRun c = (s.written, true) := by
   simp only [terminated, Bool.and_eq_true, Bool.not_eq_true'] at ht
